@@ -228,21 +228,26 @@ struct Explorer {
 
     // family (d): every length of a run of consecutive misses. One out-of-box cell with multiplicity m1 (and a second one with m2 after
     // an in-box hit) sits between in-box points in Morton order; further stored points follow the box. D = 2 only.
-    void family_missrun(int m1, int m2) {
+    void family_missrun(int m1, int m2, bool high = false) {
         if constexpr (D == 2) {
+            // `high`: the whole constellation is translated by a power of two per coordinate so that its Morton codes use the top bits
+            // of the code word (the translation keeps the relative Morton order: the low three bits per coordinate are untouched)
+            const T B = high ? T(T(1) << (sizeof(T) * 8 / D - 2)) : T(0);
             std::vector<std::pair<P, int>> cells = {{P{1, 0}, 1}, {P{0, 1}, m1}, {P{1, 1}, 3}, {P{2, 0}, 1}, {P{3, 0}, m2}, {P{2, 1}, 2}, {P{3, 1}, 1}, {P{0, 2}, 2}, {P{2, 2}, 1}, {P{5, 5}, 1}};
+            for (auto &c : cells) for (size_t d = 0; d < D; ++d) c.first[d] = T(c.first[d] + B);
             std::string spec = spec_str(cells);
             Built b{};
             if (!build(cells, spec, b)) return;
             if (m1 == 255 && m2 == 0) run.sample(case_of(spec, "*boxes around the miss run*"));
             if (prop == 13 || prop == 17) {
-                check_box(b, P{1, 0}, P{1, 1}, spec);   // code 1 and 3 inside, the run at code 2 outside
-                check_box(b, P{1, 0}, P{2, 1}, spec);   // both runs inside the Morton interval, partly outside the box
-                check_box(b, P{0, 0}, P{3, 1}, spec);
-                check_box(b, P{2, 0}, P{2, 2}, spec);
-                check_box(b, P{1, 0}, P{5, 5}, spec);
+                auto Q = [&](T x, T y) { return P{T(x + B), T(y + B)}; };
+                check_box(b, Q(1, 0), Q(1, 1), spec);   // code 1 and 3 inside, the run at code 2 outside
+                check_box(b, Q(1, 0), Q(2, 1), spec);   // both runs inside the Morton interval, partly outside the box
+                check_box(b, Q(0, 0), Q(3, 1), spec);
+                check_box(b, Q(2, 0), Q(2, 2), spec);
+                check_box(b, Q(1, 0), Q(5, 5), spec);
             }
-            if (prop == 14 || prop == 17) for (T x = 0; x < 4; ++x) for (T y = 0; y < 3; ++y) check_contains(b, P{x, y}, spec);
+            if (prop == 14 || prop == 17) for (T x = 0; x < 4; ++x) for (T y = 0; y < 3; ++y) check_contains(b, P{T(x + B), T(y + B)}, spec);
             delete b.idx;
         }
     }
@@ -325,7 +330,7 @@ struct Thunk {
         if (t.kind == 5) { ex.family_large(int(t.G), int(t.lo0)); return; }
         if (t.kind == 3) {
             // lo0 selects the slice: single runs of every length 1..600, or every split of a set of critical totals into two runs
-            if (t.lo0 == 0) { for (int m = int(t.G); m < int(t.G) + 50 && m <= 600; ++m) { ex.family_missrun(m, 0); if (r.deadline_passed()) return; } }
+            if (t.lo0 == 0) { for (int m = int(t.G); m < int(t.G) + 50 && m <= 600; ++m) { ex.family_missrun(m, 0); if (m % 5 == 0 || (m >= 60 && m <= 70)) ex.family_missrun(m, 0, true); if (r.deadline_passed()) return; } }
             else for (int total : {63, 64, 65, 66, 127, 128, 129, 130, 191, 192, 193, 255, 256, 257, 258, 319, 320, 321, 511, 512, 513}) for (int m1 = int(t.G); m1 <= total; m1 += 16) { ex.family_missrun(m1, total - m1); if (r.deadline_passed()) return; }
             return;
         }
@@ -435,7 +440,7 @@ int main(int argc, char **argv) {
     ev.states_counter = "point_multisets_indexed"; ev.transitions_counter = prop == 14 ? "contains_queries_checked" : "box_queries_checked";
     ev.nontrivial_counter = "multisets_with_2plus_distinct_points";
     ev.rule = "real miss_threshold=64; points are supplied in enumeration order, lexicographic order and reverse lexicographic order. (a) every multiplicity vector in {0,1,65}^cells over 3x3 (2D) / 2x2x2 (3D) cell universes (65 copies of an out-of-box cell force the bigmin skip), several coordinate sets incl. the largest encodable coordinate; "
-              "(b) full grids 16x16, 32x32, 8x8x8, 4^4 with every axis-aligned box; (c, thorough) 16x16 grid with every {removed,x1,x2} pattern of a 3x3 window; (e) 33124 / 35937 grid points plus 7 or 19 far points, index built with 2, 8 and 20 chunks (chunked construction); (d) miss-run family: a run of m consecutive out-of-box points for every m in 1..600 and every split (step 16) of the totals {63..66,127..130,191..193,255..258,319..321,511..513} into two runs separated by an in-box hit, also for Epsilon 32 and 64. " +
+              "(b) full grids 16x16, 32x32, 8x8x8, 4^4 with every axis-aligned box; (c, thorough) 16x16 grid with every {removed,x1,x2} pattern of a 3x3 window; (e) 33124 / 35937 grid points plus 7 or 19 far points, index built with 2, 8 and 20 chunks (chunked construction); (d) miss-run family: a run of m consecutive out-of-box points for every m in 1..600 (and, for every fifth m and 60..70, the same constellation translated to the top bits of the code word) and every split (step 16) of the totals {63..66,127..130,191..193,255..258,319..321,511..513} into two runs separated by an in-box hit, also for Epsilon 32 and 64. " +
               std::string(prop == 14 ? "Every cell of the universe and cells just outside it / at the largest encodable coordinate are passed to contains(); oracle: membership in the multiset."
                                      : "Every box over the axis values is enumerated; oracle: brute-force filter sorted by the harness's own Morton code, with multiplicity; iteration must end within n+2 steps.") +
               " State = one indexed multiset; transition = one query; non-trivial = at least two distinct points.";
